@@ -725,7 +725,8 @@ fn geometry_fault(rng: &mut Rng, s: &SizeInfo, faults: &mut Vec<Fault>) {
         4 => Fault::new("geo_col_drop", Op::GeoColDrop { c: rng.below(w) as u32 }),
         5 => Fault::new("geo_col_dup", Op::GeoColDup { c: rng.below(w) as u32 }),
         6 | 7 => {
-            let nw = match rng.below(8) {
+            let nw = match rng.below(9) {
+                8 => *rng.pick(&[u32::MAX as usize, (u32::MAX / 2) as usize, 1 << 16, 65535]),
                 0 => 0,
                 1 => w + 1,
                 2 => w.saturating_sub(1),
